@@ -761,3 +761,11 @@ func flipCmp(op token.Token) token.Token {
 	}
 	return op
 }
+
+// fnPkgPath: the import path of the package a function belongs to; "" for wrappers and other functions without one.
+func fnPkgPath(f *ssa.Function) string {
+	if f == nil || f.Pkg == nil || f.Pkg.Pkg == nil {
+		return ""
+	}
+	return f.Pkg.Pkg.Path()
+}
